@@ -131,6 +131,27 @@ func extractSubs() {
 	l.def("mapMutatorCallers", "List String", lstrs(mutCallers), "functions that call one of mapMutators")
 	shape["mapMutatorCallers"] = mutCallers
 
+	// who consults the source for the backlog: must be the handler-side
+	// registration function only, so that snapshot, backlog push and map insert
+	// are one step of the handler goroutine (no notification can be taken by
+	// the handler between the snapshot and the insert)
+	var lookupCallers []string
+	if f != nil {
+		for _, d := range f.Decls {
+			fd, ok := d.(*ast.FuncDecl)
+			if !ok || fd.Body == nil {
+				continue
+			}
+			for _, c := range calls(fd.Body) {
+				if strings.HasSuffix(c.name, ".NotificationsSinceHeight") {
+					lookupCallers = append(lookupCallers, fd.Name.Name)
+				}
+			}
+		}
+	}
+	l.def("backlogLookupCallers", "List String", lstrs(lookupCallers), "functions that call NotificationsSinceHeight (one entry per call site)")
+	shape["backlogLookupCallers"] = lookupCallers
+
 	// NewSubscription: sends sub on m.newSubscriptions
 	sendsToHandler := false
 	if newSub != nil {
